@@ -436,7 +436,7 @@ func (w *worker) runHistory(cfg *config, hist []int, initFile []byte) histResult
 		if r := outs[i].released; r != nil {
 			w.nReleases++
 			if !w.verify(r) {
-				report(finding{"released-signature-invalid", "a signature was released that does not verify over the payload handed back with it"}, "no crash, request " + fmt.Sprint(i), nil, nil, "")
+				report(finding{"released-signature-invalid", "a signature was released that does not verify over the payload handed back with it"}, "no crash, request "+fmt.Sprint(i), nil, nil, "")
 			}
 			for _, e := range rel0 {
 				if f := judge(e, *r, false); f != nil {
